@@ -222,6 +222,11 @@ func newModel(thorough bool) *chainprop.Model {
 	m.Scn, m.Opts, m.Prefix = append(m.Scn, "G4-300-verified(real epoch length)"), append(m.Opts, g4()), append(m.Prefix, nil)
 	cn, co, cp := chainprop.CeremonyScenario()
 	m.Scn, m.Opts, m.Prefix = append(m.Scn, cn), append(m.Opts, co), append(m.Prefix, cp)
+	// (appended last: scenario indices of saved replays stay valid) two shards of equal size
+	ts := world.GenesisG2()
+	ts.WithCeremony = true
+	ts.GenesisEdit = "two-equal-shards"
+	m.Scn, m.Opts, m.Prefix = append(m.Scn, "G2-two-equal-shards"), append(m.Opts, ts), append(m.Prefix, nil)
 	m.StdDrive()
 	m.Acts = append(m.Acts,
 		m.FullCeremony("ceremony(all five answer)", []string{"V1", "V2", "N1", "C1", "G"}, []string{"good", "good", "mostly", "good", "mixed"}, []string{"V1", "V2", "N1", "G"}),
